@@ -31,7 +31,26 @@ from pathlib import Path
 from xml.sax.saxutils import quoteattr
 
 import common
-from common import Outcome, tlc, pmap, Scratch
+from common import Outcome, pmap, Scratch
+
+_JT = None
+_JT_LOCK = threading.Lock()
+
+
+def tlc(*a, **kw):
+    """common.tlc with the JVM's temp dir (TLC unpacks its standard modules there and
+    never removes them) redirected into one scratch directory removed at exit."""
+    global _JT
+    with _JT_LOCK:
+        if _JT is None:
+            import atexit
+
+            _JT = tempfile.mkdtemp(prefix="c12j-")
+            atexit.register(shutil.rmtree, _JT, True)
+    env = dict(kw.pop("env", None) or {})
+    env["JAVA_TOOL_OPTIONS"] = (os.environ.get("JAVA_TOOL_OPTIONS", "") + f" -Djava.io.tmpdir={_JT}").strip()
+    return common.tlc(*a, env=env, **kw)
+
 
 PID = "C12"
 DEV_MAIN = "MainPrefixStrippedOnAdd"
